@@ -10,7 +10,7 @@ export CARGO_NET_OFFLINE=true
 [ -s "$OUT/patch.diff" ] || { echo "no patch"; exit 2; }
 cd "$WT" || exit 2
 # where does the demo go?
-CRATE=$(grep -oE "(rbx_[a-z_]+)/tests/seed_demo.rs" "$OUT/README.md" | head -1 | cut -d/ -f1)
+CRATE=$(grep -oE "(rbx_[a-z_]+)/tests/[a-z0-9_]+\.rs" "$OUT/README.md" | head -1 | cut -d/ -f1)
 [ -n "$CRATE" ] || CRATE=$(grep -oE "rbx_[a-z_]+/tests" "$OUT/README.md" | head -1 | cut -d/ -f1)
 echo "demo crate: $CRATE"
 git checkout -q -- . 2>/dev/null
